@@ -480,6 +480,12 @@ class Parser:
             return ("return", self.expr())
         if lvl == len(self.BIN):
             return self.cast(no_struct)
+        if lvl == 0 and self.peek()[0] == "op" and self.peek()[1] in ("..", "..="):
+            # `..hi` / `..=hi`: a range from 0
+            op = self.peek()[1]
+            self.i += 1
+            r = self.expr(lvl + 1, no_struct)
+            return ("bin", op, ("num", 0, None), r)
         l = self.expr(lvl + 1, no_struct)
         while self.peek()[0] == "op" and self.peek()[1] in self.BIN[lvl]:
             # `&&x` inside an expression after an operand is the binary operator; fine
@@ -1074,7 +1080,7 @@ class Gen:
             if e[1] in ("==", "!=") and lt.startswith("Option<") and rt.startswith("Option<") and \
                     (lt == rt or lt.endswith("?>") or rt.endswith("?>")) and lt[7:-1] in ("Address", "Symbol", "u32", "?"):
                 return f"({l} {'=' if e[1] == '==' else '≠'} {r})"
-            if lt == rt and lt in ("Address", "Symbol", "Bytes") and e[1] in ("==", "!="):
+            if lt == rt and lt in ("Address", "Symbol", "Bytes", "Signer", "Val") and e[1] in ("==", "!="):
                 return f"({l} {'=' if e[1] == '==' else '≠'} {r})"
             if lt == rt == "Bytes32":
                 if e[1] in ("==", "!="):
@@ -1599,6 +1605,17 @@ class Gen:
                 x_ = self.fresh(cl[1][0] + "_")
                 pl = self.cond(cl[2], dict(env, **{cl[1][0]: (x_, vt[4:-1])}))
                 return (f"(List.findIdx? (fun {x_} => decide {pl}) {vl})", "Option<usize>")
+        if name == "rposition" and len(args) == 1 and r0[0] == "mcall" and r0[2] == "iter" and not r0[3]:
+            # `v.iter().rposition(|x| pure predicate)`: index of the LAST element satisfying it
+            cl = self.strip(args[0])
+            try:
+                vl, vt = self.pure(r0[1], env)
+            except Unsupported:
+                return None
+            if vt.startswith("Vec<") and cl[0] == "closure" and len(cl[1]) == 1:
+                x_ = self.fresh(cl[1][0] + "_")
+                pl = self.cond(cl[2], dict(env, **{cl[1][0]: (x_, vt[4:-1])}))
+                return (f"(listRPosition (fun {x_} => decide {pl}) {vl})", "Option<usize>")
         try:
             rl, rt = self.pure(recv, env)
         except Unsupported:
@@ -2083,6 +2100,17 @@ class Gen:
                         return k(f"(some {a})", f"Option<{t}>")
                     some_code = self.tr(cl[2], dict(env, **{pv: (nb, rt_[7:-1])}), ksome, ret)
                     return f"(optCase {r}\n (fun {nb} =>\n {some_code})\n ({k('none', 'Option<' + seen.get('t', '?') + '>')}))"
+                if rt_.startswith("Vec<") and name == "slice" and len(args) == 1 and self.strip(args[0])[0] == "bin" \
+                        and self.strip(args[0])[1] in ("..", "..="):
+                    # `v.slice(lo..hi)`: the sub-vector, a panic when the bounds are out of range
+                    r_ = self.strip(args[0])
+                    def klo(ll, lt):
+                        def khi(hl, ht):
+                            hi = as_nat(hl, ht) if r_[1] == ".." else f"({as_nat(hl, ht)} + 1)"
+                            v = self.fresh("v")
+                            return f"(Comp.unwrap (vecSlice? {r} {as_nat(ll, lt)} {hi}) fun {v} =>\n {k(v, rt_)})"
+                        return self.tr(r_[3], env, khi, ret)
+                    return self.tr(r_[2], env, klo, ret)
                 if rt_.startswith("Vec<") and name == "get_unchecked" and len(args) == 1:
                     # `v.get_unchecked(i)`: the element, a panic outside the bounds
                     il, it_ = self.pure(args[0], env)
@@ -3571,6 +3599,14 @@ STRUCTS_CR = {"MetaS": [("name", "Val"), ("context_type", "Val"), ("valid_until"
                               ("valid_until", "Option<u32>")]}
 READS_CR = {"Rules": {"ledger_sequence": "u32"}}
 FILES_CR = [("Rules", "packages/accounts/src/smart_account/storage.rs", ["get_context_rule", "get_context_rules", "get_valid_context_rules"])]
+STORE_CRW = {"RulesW": {"Meta": (["u32"], "MetaS"), "Signers": (["u32"], "Vec<Signer>"), "Policies": (["u32"], "Vec<Address>"),
+                        "Ids": (["Val"], "Vec<u32>"), "NextId": ([], "u32"), "Count": ([], "u32"), "Fingerprint": (["Bytes32"], "bool")}}
+READS_CRW = {"RulesW": {"ledger_sequence": "u32",
+                        "compute_fingerprint": ("fn", ["Val", "Vec<Signer>", "Vec<Address>"], "Bytes32")}}
+FILES_CRW = [("RulesW", "packages/accounts/src/smart_account/mod.rs", []),
+             ("RulesW", "packages/accounts/src/smart_account/storage.rs",
+              ["get_context_rule", "validate_signers_and_policies", "validate_and_set_fingerprint",
+               "remove_fingerprint", "update_context_rule_name", "update_context_rule_valid_until", "add_signer", "remove_signer"])]
 STORE_CLM = {"Claims": {"Claim": (["Bytes32"], "IdClaim"), "ClaimsByTopic": (["u32"], "Vec<Bytes32>")}}
 STRUCTS_CLM = {"IdClaim": [("topic", "u32"), ("scheme", "u32"), ("issuer", "Address"), ("signature", "Bytes"), ("data", "Bytes"), ("uri", "Val")]}
 READS_CLM = {"Claims": {"current_contract_address": "Address",
@@ -4330,6 +4366,15 @@ def main():
             txt = translate(repo, FILES_CR, reads=READS_CR, structs=STRUCTS_CR, store=STORE_CR,
                             tymaps={"packages/accounts/src/smart_account/storage.rs": {"ContextRuleType": "Val", "String": "Val", "Meta": "MetaS"}},
                             rename_types={"ContextRule": "Rules.ContextRule"})
+        elif "--rules-w" in sys.argv:
+            # the writers of the context-rule registry that do not call a policy contract; `compute_fingerprint` (sha256 over
+            # the sorted XDR of the rule's parts) is a function of the reads record
+            HELPER_GETTERS.add("get_persistent_entry")
+            OPAQUE_CONSTS[("ContextRuleType", "Default")] = (0, "Val")
+            STRUCT_ALIAS["Meta"] = "MetaS"
+            txt = translate(repo, FILES_CRW, reads=READS_CRW, structs=STRUCTS_CR, store=STORE_CRW,
+                            tymaps={"packages/accounts/src/smart_account/storage.rs": {"ContextRuleType": "Val", "String": "Val", "Meta": "MetaS", "BytesN<32>": "Bytes32"}},
+                            rename_types={"ContextRule": "RulesW.ContextRule", "MetaS": "RulesW.MetaS"})
         elif "--claims" in sys.argv:
             STRUCT_ALIAS["Claim"] = "IdClaim"
             txt = translate(repo, FILES_CLM, reads=READS_CLM, structs=STRUCTS_CLM, store=STORE_CLM,
